@@ -41,7 +41,8 @@ FRAMES = [
 BASES = [(F(1, 8), F(-3, 8), F(1, 2)), (F(0), F(0), F(0)), (F(-5, 8), F(1), F(1, 4)), (F(3, 4), F(7, 8), F(-1))]
 # Point / Vector probes additionally use coordinates of larger magnitude (the tolerance is absolute and uniform)
 BIG_BASES = [(F(25, 2), F(-129, 8), F(449, 4)), (F(-1000), F(3, 8), F(64)), (F(7), F(-9, 2), F(11, 8))]
-TYPES = ("P", "V", "L", "PL", "S", "H", "G", "K")
+TYPES = ("P", "V", "L", "PL", "S", "H", "G", "K", "PLG")
+MANTISSAS = (1.5, 2.0, 2.5, 3.0, 5.0, 7.0)
 PERTS = ("eps/1000", "eps/100", "4eps")
 
 
@@ -57,6 +58,9 @@ def catalogue(t, fi, bi):
         return {"kind": "L", "pts": [p, e1]}
     if t == "PL":
         return {"kind": "PL", "pts": [p, e3]}
+    if t == "PLG":
+        # plane in general form a x + b y + c z = d: the "points" are (a, b, c) and (d, 0, 0)
+        return {"kind": "PLG", "pts": [e3, (X.dot(e3, p), F(0), F(0))]}
     if t == "S":
         return {"kind": "S", "pts": [p, X.add(p, e1)]}
     if t == "H":
@@ -85,6 +89,8 @@ def construct(kind, pts):
         return G.Line(P(pts[0]), V(pts[1]))
     if kind == "PL":
         return G.Plane(P(pts[0]), V(pts[1]))
+    if kind == "PLG":
+        return G.Plane(pts[0][0], pts[0][1], pts[0][2], pts[1][0])
     if kind == "S":
         return G.Segment(P(pts[0]), P(pts[1]))
     if kind == "H":
@@ -104,6 +110,10 @@ def defining_points(kind, pts):
         return [pts[0], tuple(a + b for a, b in zip(pts[0], pts[1]))]
     if kind == "PL":
         return [pts[0]]
+    if kind == "PLG":
+        n, d = pts[0], pts[1][0]
+        nn = sum(c * c for c in n)
+        return [tuple(c * d / nn for c in n)]
     if kind in ("S", "G", "K"):
         return list(pts)
     return []
@@ -204,6 +214,12 @@ class Executor(object):
                 raise Fail("get_eps() does not return the value set", {"set": e, "got": G.get_eps()}, self.facts)
             if G.get_sig_figures() != step[1]:
                 raise Fail("set_eps(1e-k) does not give k significant figures", {"k": step[1], "sig": G.get_sig_figures()}, self.facts)
+        elif name == "set_eps_any":
+            # eps need not be a power of ten: get_sig_figures() must still be round(-log10(eps)) (config invariant)
+            e = MANTISSAS[step[1] % len(MANTISSAS)] * 10.0 ** (-step[2])
+            self.guard("set_eps", lambda: G.set_eps(e))
+            if G.get_eps() != e:
+                raise Fail("get_eps() does not return the value set", {"set": e, "got": G.get_eps()}, self.facts)
         elif name == "set_sig":
             self.guard("set_sig_figures", lambda: G.set_sig_figures(step[1]))
             if G.get_sig_figures() != step[1]:
@@ -290,6 +306,8 @@ class Executor(object):
         if eps != 1e-10:
             self.nondefault_probes += 1
         self.facts = {"step": "probe", "type": kind, "frame": fi % len(FRAMES), "perturbation": pert, "eps": eps, "which": wi, "coord": coord % 3}
+        if kind == "PLG" and wi == 1:
+            moved = [base[0], (base[1][0] + delta, 0.0, 0.0)]
         if pert == "4eps" and kind not in ("P", "V"):
             # the statement makes the 4*eps claim for Points and Vectors only (a composite object with one
             # coordinate 4*eps off may legitimately be rejected, e.g. a polygon vertex off its plane)
@@ -355,7 +373,9 @@ def account(case, ctx):
     npr = 0
     for s in steps:
         name = s[0].rstrip("23")
-        if name in ("set_eps", "set_sig"):
+        if name == "set_eps_any":
+            cur = -1
+        elif name in ("set_eps", "set_sig"):
             cur = s[1]
         elif name in ("default_eps", "default_sig"):
             cur = 10
@@ -397,6 +417,7 @@ def machine(ctx):
     rules = {
         "set_eps": (st.sampled_from(KS),),
         "set_sig": (st.sampled_from(KS),),
+        "set_eps_any": (st.integers(0, len(MANTISSAS) - 1), st.sampled_from(KS[1:])),
         "default_eps": (),
         "default_sig": (),
         "save": (),
@@ -433,6 +454,32 @@ def _apply(self, step):
 Executor.apply = _apply
 
 
+def enum_probes(shard, nshards):
+    """complete sweep of the probe catalogue (all types except the slow polyhedron; every frame, two bases, the two
+    coincidence perturbations, every defining point / coordinate / sign) under two non-default configurations"""
+    i = 0
+    for k in (5, 8):
+        for setter in (True, False):
+            if setter and k == 8:
+                continue
+            for ti, t in enumerate(TYPES):
+                if t == "K":
+                    continue
+                for fi in range(len(FRAMES)):
+                    for bi in (0, 2):
+                        npts = len(catalogue(t, fi, bi)["pts"])
+                        for pk in (0, 1):
+                            for which in range(npts):
+                                for coord in range(3):
+                                    for sign in (True, False):
+                                        i += 1
+                                        if i % nshards == shard:
+                                            yield ("HIST", ("CFG", k, setter), (("probe", ti, fi, bi, pk, which, coord, sign),))
+
+
 def strata(tier):
     q = tier == "quick"
-    return [Stratum("config-history", "machine", machine, 640 if q else 20000)]
+    return [
+        Stratum("probe-sweep", "enum", enum_probes),
+        Stratum("config-history", "machine", machine, 640 if q else 20000),
+    ]
